@@ -8,7 +8,7 @@ from ..oracles import floodfill as ff
 from ..oracles import topo
 
 PROP = "C16"
-RULE = ("Generator: (a) every raster over a 2-letter alphabet with <= 12 cells (quick) / <= 16 cells, one dtype <= 18 cells (thorough) and every raster over a 3-letter "
+RULE = ("Generator: (a) every raster over a 2-letter alphabet with <= 12 cells (quick) / <= 16 cells, one dtype <= 20 cells (thorough) and every raster over a 3-letter "
         "alphabet (three values, or two values + NaN) with <= 9 cells (one variant <= 10 in thorough), for every shape h x w incl. 1xN, Nx1, 1x1, neighbourhood 4 and 8; "
         "(b) random rasters up to 24x24 built from topology constructors (spiral, nested rings, comb/U, serpentine/S, tree, checkerboard, "
         "diagonal stripes, diamonds, holes touching the border, staircase, noise) then cropped, flipped, padded and perturbed, mapped to "
@@ -209,7 +209,7 @@ def shards(tier):
     out = []
     if tier == "thorough":
         nrand, per, side = 16, 2500, 24
-        plan = [("bin_f64", 18, 16), ("bin_i32", 16, 8), ("bin_u32", 12, 1), ("ter_i64", 10, 4), ("ter_nan_f32", 9, 2),
+        plan = [("bin_f64", 20, 32), ("bin_i32", 16, 8), ("bin_u32", 12, 1), ("ter_i64", 10, 4), ("ter_nan_f32", 9, 2),
                 ("ter_f64", 9, 2), ("ter_nan_f64", 9, 2)]
     else:
         nrand, per, side = 8, 800, 24
@@ -224,7 +224,7 @@ def shards(tier):
     return out
 
 
-LEVEL_TEXT = ("Bounded-exhaustive plus randomised search: every 2-letter raster of every shape with <= 12 cells (quick) / <= 16 cells, one dtype <= 18 cells (thorough) and every "
+LEVEL_TEXT = ("Bounded-exhaustive plus randomised search: every 2-letter raster of every shape with <= 12 cells (quick) / <= 16 cells, one dtype <= 20 cells (thorough) and every "
               "3-letter raster (incl. NaN as a letter) with <= 9 cells (one variant <= 10 in thorough), both neighbourhoods, and thousands of random rasters up to 24x24 built from "
               "spiral / ring / comb / serpentine / checkerboard / diagonal / hole constructors over five dtypes, NaN densities, layouts and "
               "coordinate/attr variants, each compared with a flood-fill partition. Decides the property inside the enumerated spaces, samples it outside.")
